@@ -153,6 +153,23 @@ class Check:
         with open(out) as f:
             return json.load(f)
 
+    def record_repo_tests(self, paths, limit=300, timeout=1800):
+        """Run (part of) the repository's own test-suite under harness/pytest_record.py and return the recorded traces."""
+        repo = os.environ.get("VERIF_REPO", "/repo")
+        out = os.path.join(self.wd, f"repo-tests-{len(os.listdir(self.wd))}.json")
+        env = dict(os.environ)
+        env.update({"VERIF_RECORD_OUT": out, "VERIF_RECORD_LIMIT": str(limit), "VERIF_SEED": str(self.seed),
+                    "PYTHONPATH": os.path.join(ROOT, "harness") + os.pathsep + env.get("PYTHONPATH", "")})
+        cmd = [PY, "-m", "pytest", "-q", "-p", "no:cacheprovider", "-p", "pytest_record", "--timeout=900", "--continue-on-collection-errors"] + list(paths)
+        p = subprocess.run(cmd, cwd=repo, env=env, stdout=subprocess.PIPE, stderr=subprocess.STDOUT, text=True, timeout=timeout)
+        if not os.path.exists(out):
+            raise MachineryError(f"recording the repository tests failed rc={p.returncode}:\n{p.stdout[-2000:]}")
+        with open(out) as f:
+            d = json.load(f)
+        self.extra.setdefault("repo_tests_recorded", {})["calls_seen"] = d["calls_seen"]
+        self.extra["repo_tests_recorded"]["pytest_summary"] = p.stdout.strip().splitlines()[-1][:200] if p.stdout.strip() else ""
+        return d["traces"]
+
     # ---- trace validation ------------------------------------------------------
     def validate(self, module, traces, *, constants=None, chunk=200, jobs=12, timeout=400, label=None,
                  count=True, env=None, heap="3g"):
